@@ -201,8 +201,9 @@ def program(draw, cols, n, max_groups=3, max_conds=3):
     return {"flat": flat, "groups": groups, "conds_as_lists": draw(st.integers(0, 3)) == 0}
 
 
-def to_api(prog):
+def to_api(prog, rename=None):
     # a condition is a 3-tuple, or (what the repository's own tests write) a 3-element list
     mk = list if prog.get("conds_as_lists") else tuple
-    gs = [[mk((c["col"], c["op"], build_const(c["val"]))) for c in g] for g in prog["groups"]]
+    rename = rename or {}
+    gs = [[mk((rename.get(c["col"], c["col"]), c["op"], build_const(c["val"]))) for c in g] for g in prog["groups"]]
     return gs[0] if prog["flat"] else gs
